@@ -936,7 +936,7 @@ impl TryFrom<Option<char>> for LocationPrefix {
     type Error = &'static str;
 
     fn try_from(value: Option<char>) -> Result<Self, Self::Error> {
-        match value {
+        match value.map(|c| c.to_ascii_uppercase()) {
             Some('I') => Ok(LocationPrefix::I),
             Some('Q') => Ok(LocationPrefix::Q),
             Some('M') => Ok(LocationPrefix::M),
@@ -980,7 +980,7 @@ impl TryFrom<Option<char>> for SizePrefix {
     type Error = &'static str;
 
     fn try_from(value: Option<char>) -> Result<Self, Self::Error> {
-        match value {
+        match value.map(|c| c.to_ascii_uppercase()) {
             Some('*') => Ok(SizePrefix::Unspecified),
             Some('X') => Ok(SizePrefix::X),
             Some('B') => Ok(SizePrefix::B),
@@ -1349,8 +1349,8 @@ pub struct AddressAssignment {
 }
 
 lazy_static! {
-    static ref DIRECT_ADDRESS_UNASSIGNED: Regex = Regex::new(r"%([IQM])\*").unwrap();
-    static ref DIRECT_ADDRESS: Regex = Regex::new(r"%([IQM])([XBWDL])?(\d(\.\d)*)").unwrap();
+    static ref DIRECT_ADDRESS_UNASSIGNED: Regex = Regex::new(r"(?i)%([IQM])\*").unwrap();
+    static ref DIRECT_ADDRESS: Regex = Regex::new(r"(?i)%([IQM])([XBWDL])?(\d+(\.\d+)*)").unwrap();
 }
 
 impl TryFrom<&str> for AddressAssignment {
@@ -1369,11 +1369,13 @@ impl TryFrom<&str> for AddressAssignment {
 
         if let Some(cap) = DIRECT_ADDRESS.captures(value) {
             let location_prefix = LocationPrefix::try_from(&cap[1])?;
-            let size_prefix = SizePrefix::try_from(&cap[2])?;
-            let pos: Vec<u32> = cap[3]
+            // The size prefix is optional
+            let size_prefix = SizePrefix::try_from(cap.get(2).map_or("", |m| m.as_str()))?;
+            let pos = cap[3]
                 .split('.')
-                .map(|v| v.parse::<u32>().unwrap())
-                .collect();
+                .map(|v| v.parse::<u32>())
+                .collect::<Result<Vec<u32>, _>>()
+                .map_err(|e| "Address component out of range")?;
 
             return Ok(AddressAssignment {
                 location: location_prefix,
